@@ -500,7 +500,8 @@ def own(g, rs, ctx):
     # own_misc: transforms / tenalg / metrics with caller-owned lists
     from tensorly import tenalg, cp_tensor as cpm, metrics
     which = gen.choice(rs, ["cp_flip_sign", "cp_permute_list", "khatri_rao_mask", "cp_normalize", "mttkrp", "kronecker", "multi_mode_dot", "corrindex", "congruence",
-                            "svd_compress", "cp_mode_dot_copy", "prox", "process_reg", "validate_rank"])
+                            "svd_compress", "cp_mode_dot_copy", "prox", "process_reg", "validate_rank", "tensordot_lists", "tensordot_lists", "nnls_start", "nnls_start",
+                            "rank_lists", "mode_lists"])
     _TL.last_entry = which
     fs = [argkind(rs, rs.standard_normal((s, R)), ctx) for s in shp]
     w = rs.uniform(0.5, 2, R)
@@ -544,6 +545,68 @@ def own(g, rs, ctx):
         {"simplex": lambda: P.simplex_prox(v, 1.0), "soft": lambda: P.soft_sparsity_prox(v, 1.0), "hard": lambda: P.hard_thresholding(v, 3), "mono": lambda: P.monotonicity_prox(v),
          "uni": lambda: P.unimodality_prox(v), "smooth": lambda: P.smoothness_prox(v, 0.1), "nn": lambda: P.proximal_operator(v, non_negative=True), "l2": lambda: P.l2_prox(v, 0.1),
          "svt": lambda: P.svd_thresholding(v, 0.1), "procrustes": lambda: P.procrustes(v), "normsp": lambda: P.normalized_sparsity_prox(v, 3)}[opn]()
+    elif which == "tensordot_lists":
+        # contraction / batch modes as caller-owned lists, with negative indices (which the library normalises internally)
+        be = gen.choice(rs, ["core", "einsum"])
+        prev = tenalg.get_backend()
+        tenalg.set_backend(be)
+        try:
+            A = argkind(rs, rs.standard_normal((3, 4, 2, 5)), ctx)
+            Bt = argkind(rs, rs.standard_normal((5, 4, 3, 2)), ctx)
+            form = gen.choice(rs, ["pair", "pair-neg", "flat", "flat-neg", "batched", "batched-neg"])
+            ctx.count("own/tensordot_" + form)
+            if form == "pair":
+                tenalg.tensordot(A, Bt, [[1, 3], [1, 0]])
+            elif form == "pair-neg":
+                tenalg.tensordot(A, Bt, [[1, -1], [-3, 0]])
+            elif form == "flat":
+                tenalg.tensordot(A, A, [1, 3])
+            elif form == "flat-neg":
+                tenalg.tensordot(A, A, [-3, -1])
+            elif form == "batched":
+                tenalg.tensordot(A, Bt, [[1], [1]], batched_modes=[[0, 2], [2, 3]])
+            else:
+                tenalg.tensordot(A, Bt, [[-3], [1]], batched_modes=[[0, -2], [-2, -1]])
+        finally:
+            tenalg.set_backend(prev)
+    elif which == "nnls_start":
+        # a caller-supplied start point is an input, not a work buffer (only hals_nnls documents V as updated in place)
+        from tensorly.solvers import nnls as NN
+        n, m = int(rs.randint(3, 7)), int(rs.randint(1, 3))
+        U = rs.standard_normal((n + 2, n))
+        xt = np.abs(rs.standard_normal((n, m))) * (rs.uniform(size=(n, m)) < 0.5)
+        UtU, UtM = U.T @ U, U.T @ (U @ xt + 0.1 * rs.standard_normal((n + 2, m)))
+        solver = gen.choice(rs, ["active_set", "active_set", "fista"])
+        ctx.count("own/nnls_start_" + solver)
+        # wrong support on purpose: strictly positive everywhere, so the first passive-set solve has to step back
+        start = np.full((n, m), 0.5) if rs.rand() < 0.6 else np.abs(rs.standard_normal((n, m)))
+        if solver == "active_set":
+            for j in range(m):
+                st = gen.choice(rs, [start[:, j].copy(), start[:, j:j + 1].copy()])
+                NN.active_set_nnls(argkind(rs, UtM[:, j].copy(), ctx), argkind(rs, UtU, ctx), x=st, n_iter_max=50)
+        else:
+            NN.fista(argkind(rs, UtM, ctx), argkind(rs, UtU, ctx), x=start, n_iter_max=30, non_negative=True, sparsity_coef=gen.choice(rs, [None, 0.1]))
+    elif which == "rank_lists":
+        # rank lists that the library has to clip / complete must stay the caller's
+        from tensorly import decomposition as D
+        ctx.count("own/rank_lists")
+        big = [1] + [50] * (order - 1) + [1]
+        D.tensor_train(X, big)
+        D.tucker(X, [50] * order, n_iter_max=1, init="svd")
+        rk = [2] * order
+        D.partial_tucker(X, rk[:2], modes=[0, order - 1], n_iter_max=1)
+        D.non_negative_tucker(X, [min(2, s) for s in shp], n_iter_max=1)
+        tl.random.random_tucker(tuple(shp), [2] * order)
+        tl.random.random_tt(tuple(shp), [1] + [2] * (order - 1) + [1])
+    elif which == "mode_lists":
+        ctx.count("own/mode_lists")
+        ms = [order - 1, 0]
+        tenalg.multi_mode_dot(X, [rs.standard_normal((2, shp[m_])) for m_ in ms], modes=ms)
+        tenalg.multi_mode_dot(X, [rs.standard_normal(shp[m_]) for m_ in ms], modes=ms)
+        tenalg.multi_mode_dot(X, [rs.standard_normal((2, shp[m_])) for m_ in ms], modes=[-1, 0])
+        tl.partial_unfold(X, 0, skip_begin=1)
+        tl.fold(tl.unfold(np.asarray(X), 1), 1, list(shp))
+        from tensorly.tucker_tensor import multi_mode_dot as _mm  # noqa
     elif which == "process_reg":
         from tensorly.solvers.penalizations import process_regularization_weights
         process_regularization_weights([None, 0.1, None][:order] + [None] * max(0, order - 3), [0.5] + [None] * (order - 1), order)
